@@ -10,6 +10,7 @@ type sched struct {
 	Observe bool   // resolvers observe the context (return ctx.Err() once it is done) instead of ignoring it
 	// Class:
 	//   nocancel  no cancellation before the call returned (sanity: must equal the baseline)
+	//   own-ctx-error  no cancellation; site K returns an error wrapping context.DeadlineExceeded / context.Canceled of its own (must equal the baseline with that error)
 	//   pre-open  context already done before the call, no gate held        (either outcome is legal)
 	//   pre-held  context already done before the call, first site held     (must return while it is held)
 	//   held      site K held; cancel once entered(K) is logged             (must return while it is held)
@@ -66,6 +67,11 @@ func enumerated() []sched {
 					}
 				}
 				for k := range d.Sites {
+					// no cancellation at all; site k fails with an error that wraps a
+					// context error of its own: the full response, that error included
+					s = base
+					s.Class, s.Ctx, s.K = "own-ctx-error", "cancel", k
+					out = append(out, s)
 					for _, ob := range []bool{false, true} {
 						s = base
 						s.Class, s.Ctx, s.K, s.Observe = "held", "cancel", k, ob
